@@ -4,6 +4,7 @@ package main
 // (concurrent inserts never collide, reused offsets carry no stale data).
 
 import (
+	"bytes"
 	"fmt"
 	"strconv"
 	"sync"
@@ -12,6 +13,7 @@ import (
 
 	"github.com/anishathalye/porcupine"
 	"github.com/kelindar/column"
+	"github.com/kelindar/column/commit"
 )
 
 // ---------------------------------------------------------------------------------------------
@@ -746,5 +748,134 @@ func triggerRound(w *W, idx int) {
 	}
 	if idx == 0 {
 		w.Sample(map[string]any{"round": idx, "writers": 6, "txns_per_writer": per, "committed_stores": stores, "callbacks": callbacks, "drops": drops})
+	}
+}
+
+// ---------------------------------------------------------------------------------------------
+// C08: many blocks, one writer per block, large commits, snapshots in a loop. With a single
+// writer per row the prefix oracle is a counter: the restored row must hold the k-th state of
+// its writer with acked-before-call <= k <= started-before-return, and the payload of state k.
+
+func widePayload(wi int, k int64) string {
+	b := make([]byte, 24)
+	x := uint64(wi+1)*0x9E3779B97F4A7C15 + uint64(k)*0xD1B54A32D192ED03
+	for i := range b {
+		x ^= x << 13
+		x ^= x >> 7
+		x ^= x << 17
+		b[i] = byte(x)
+	}
+	return string(b)
+}
+
+func snapshotWideRound(w *W, idx int) {
+	caseID := fmt.Sprintf("E3:snapshot-wide:round%d", idx)
+	w.Begin(idx, caseID)
+	const writers = 48
+	c := column.NewCollection(column.Options{Capacity: 64, Vacuum: 1 << 40})
+	defer c.Close()
+	c.CreateColumn("n", column.ForInt64())
+	c.CreateColumn("s", column.ForString())
+	rows := make([]uint32, writers)
+	for wi := 0; wi < writers; wi++ {
+		rows[wi] = uint32(wi)<<14 + 3
+		row, n := commit.NewBuffer(16), commit.NewBuffer(16)
+		row.Reset("row")
+		n.Reset("n")
+		row.PutOperation(commit.Insert, rows[wi])
+		n.PutInt64(commit.Put, rows[wi], 0)
+		if err := c.Replay(commit.Commit{ID: 1, Chunk: commit.Chunk(wi), Updates: []*commit.Buffer{row, n}}); err != nil {
+			panic(err)
+		}
+	}
+	// no injected delays here: the point is maximal contention on the snapshot recorder
+	per := int64(scale(w, 1200, 3000)) // race-detector build
+	if idx >= 100 {
+		per = int64(scale(w, 5000, 15000)) // plain build
+	}
+	var started, acked [writers]int64
+	var left int32 = writers
+	var fns []func()
+	for wi := 0; wi < writers; wi++ {
+		wi := wi
+		fns = append(fns, func() {
+			defer atomic.AddInt32(&left, -1)
+			for k := int64(1); k <= per; k++ {
+				atomic.StoreInt64(&started[wi], k)
+				c.QueryAt(rows[wi], func(r column.Row) error {
+					r.SetInt64("n", k)
+					r.SetString("s", widePayload(wi, k))
+					return nil
+				})
+				atomic.StoreInt64(&acked[wi], k)
+			}
+		})
+	}
+	type snap struct {
+		lo, hi [writers]int64
+		data   []byte
+		err    error
+	}
+	var snaps []snap
+	fns = append(fns, func() {
+		for i := 0; i < 200 && atomic.LoadInt32(&left) > 0; i++ {
+			var s snap
+			for wi := range s.lo {
+				s.lo[wi] = atomic.LoadInt64(&acked[wi])
+			}
+			var buf bytes.Buffer
+			s.err = c.Snapshot(&buf)
+			for wi := range s.hi {
+				s.hi[wi] = atomic.LoadInt64(&started[wi])
+			}
+			s.data = buf.Bytes()
+			snaps = append(snaps, s)
+		}
+	})
+	parallel(fns...)
+	replay := map[string]any{"idx": idx, "race": true, "engine": "E3"}
+	bytesTotal := 0
+	for si, s := range snaps {
+		bytesTotal += len(s.data)
+		if s.err != nil {
+			w.Violate(idx, caseID, fmt.Sprintf("[snapshot] snapshot %d failed beside %d writers: %v", si, writers, s.err), "", replay)
+			return
+		}
+		r := column.NewCollection(column.Options{Capacity: 64, Vacuum: 1 << 40})
+		r.CreateColumn("n", column.ForInt64())
+		r.CreateColumn("s", column.ForString())
+		err := r.Restore(bytes.NewReader(s.data))
+		if err != nil {
+			r.Close()
+			w.Violate(idx, caseID, fmt.Sprintf("[snapshot] snapshot %d (%d bytes) taken beside %d writers does not restore: %v", si, len(s.data), writers, err), "", replay)
+			return
+		}
+		for wi := 0; wi < writers; wi++ {
+			var n int64
+			var str string
+			var ok1, ok2 bool
+			r.QueryAt(rows[wi], func(row column.Row) error { n, ok1 = row.Int64("n"); str, ok2 = row.String("s"); return nil })
+			bad := ""
+			switch {
+			case !ok1 || n < s.lo[wi] || n > s.hi[wi]:
+				bad = fmt.Sprintf("holds state %d (present %v); %d commits were acknowledged before the call and %d had started when it returned", n, ok1, s.lo[wi], s.hi[wi])
+			case n > 0 && (!ok2 || str != widePayload(wi, n)):
+				bad = fmt.Sprintf("holds counter %d but not the payload stored with it (commit applied partially)", n)
+			}
+			if bad != "" {
+				r.Close()
+				w.Violate(idx, caseID, fmt.Sprintf("[snapshot] snapshot %d: restored row %d (block %d, single writer) %s", si, rows[wi], wi, bad), "", replay)
+				return
+			}
+		}
+		r.Close()
+	}
+	w.Stat("wide_snapshots_restored", int64(len(snaps)))
+	w.Stat("wide_snapshot_bytes", int64(bytesTotal))
+	w.Stat("wide_commits", int64(writers)*per)
+	w.Stat("stress_rounds", 1)
+	w.Eval(hashOf("wide", idx, len(snaps), bytesTotal/100000), len(snaps) > 0)
+	if idx <= 1 {
+		w.Sample(map[string]any{"round": idx, "writers_and_blocks": writers, "commits_per_writer": per, "snapshots": len(snaps), "snapshot_bytes_total": bytesTotal})
 	}
 }
